@@ -3,6 +3,14 @@ families = correspondence families (harness `gen <fam>`) with quick-tier op coun
 monitor = number of monitor cases in the quick tier (harness `monitor <id>`)."""
 
 PROPS = {
+    "C18": {
+        "families": {"curve": 20000, "fx": 6000},
+        "monitor": 20000,
+        "assumptions": [
+            "the u32 fields of InterestRateConfig hold values in [0, 2^32-1] (hypothesis WF of the theorems; a fact of the Rust types)",
+            "utilisation passed to the public calculator is non-negative and below 2^60 (beyond that base*ur overflows whatever the curve; the private curve function is covered for ALL bit patterns by the theorems)",
+        ],
+    },
     "C15": {
         "families": {"panic": 20000, "fx": 6000},
         "monitor": 20000,
@@ -20,6 +28,12 @@ _NOTE = ("Trusted: Lean kernel; axioms propext/Classical.choice/Quot.sound only 
          "and by diffing model vs real code on generated operations. ")
 
 MANIFEST_TEXT = {
+    "C18": {
+        "text": "Machine-checked Lean 4 theorems for EVERY configuration accepted by validate_seven_point (any number of points, any u32 values; proof by induction over the point list) and EVERY utilisation bit pattern: the base rate is defined, lies in [rate(zero), rate(hundred)], equals each configured point's rate at its utilisation, equals the zero/hundred rates at <=0 / >=100 %, is monotone in utilisation, is clamped outside [0,1]; borrow rate >= base with non-negative fees, lending rate <= base on [0,1]; the legacy curve is defined and within [0,max] for every utilisation. lerp's unchecked -,/,+ are proved in range on every call site. Model diffed against the real validate / calc_interest_rate / accrual functions on ~20k generated configs per run (ok, None and panic outcomes compared) and the same predicates are monitored on the real calculator.",
+        "design_ref": "DESIGN.md §4 C18",
+        "note": _NOTE + "Two genuine defects found by this check were repaired in /repo (fix: commits f4ec21f5, 9e609245; see known_findings.json); the theorems are stated at full strength about the repaired code.",
+        "technique": "Lean 4 proof: structural induction over the curve's point list + fixed-point bound lemmas; model/implementation correspondence check",
+    },
     "C15": {
         "text": "Machine-checked Lean 4 theorems over ALL histories of pause / admin-unpause / permissionless-unpause / propagate with arbitrary non-decreasing timing (induction over op lists, no bound): each successful pause extends the paused-until time by <= 1800 s, paused-until <= now + 3600 in every reachable state, <= 2 consecutive and <= 3 daily pauses, counter resets >= 86400 s apart, an expired pause never gates (stale or fresh cache), unpause total while flagged. The model's step functions are diffed against the real PanicState/PanicStateCache code on ~20k generated steps per run, and the same bounds are monitored on the real code.",
         "design_ref": "DESIGN.md §4 C15",
